@@ -87,7 +87,8 @@ class Scenario:
         return sp.Symbol(name, **kw)
 
     def symbolic_vals(self):
-        self.axis = Axis(self.axis_name)
+        if self.axis is None:
+            self.axis = Axis(self.axis_name)  # one axis object per scenario: arrays of different runs stay comparable
         v = {}
         for name, box in self.events.items():
             if box == "bool":
@@ -193,7 +194,7 @@ def close(a, b, rtol=1e-9, atol=1e-12):
 
 def make_interp(overrides=None, **kw):
     it = Interp(SRC, overrides=overrides, **kw)
-    it.extra_roots = [VERIF + "/contracts"]
+    it.extra_roots = [VERIF + "/contracts", VERIF + "/nssvc/spec.py"]
     return it
 
 
@@ -220,6 +221,38 @@ def domain(x):
 # --------------------------------------------------------------------------------------
 # numeric evaluation of output terms on native inputs (encoder cross-check, DESIGN 2.8.1)
 # --------------------------------------------------------------------------------------
+
+
+import contextlib
+
+
+@contextlib.contextmanager
+def patched_rng(feed):
+    """run the real code with numpy's global generator replaced by the given numbers ("for fixed
+    random numbers"): successive uniform()/rand() calls return successive entries of `feed`."""
+    if not feed:
+        yield
+        return
+    feed = list(feed)
+    o_uniform, o_rand = np.random.uniform, np.random.rand
+
+    def uniform(low=0.0, high=1.0, size=None):
+        if not feed:
+            raise RuntimeError("more random draws than fed numbers")
+        x = np.asarray(feed.pop(0), dtype=float)
+        n = int(np.prod(size)) if size is not None else 1
+        if x.size != n:
+            raise ValueError("random draw of size %s fed with %d numbers" % (size, x.size))
+        return x.reshape(size) if size is not None else float(x)
+
+    def rand(*dims):
+        return uniform(0.0, 1.0, dims if dims else None)
+
+    np.random.uniform, np.random.rand = uniform, rand
+    try:
+        yield
+    finally:
+        np.random.uniform, np.random.rand = o_uniform, o_rand
 
 
 class TermEval:
@@ -268,7 +301,7 @@ class FunctionCheck:
     """obligations `real function == spec function` for every path, plus frame, cross-check, replay"""
 
     def __init__(self, ck, qualname, scenario: Scenario, spec, outputs, overrides=None, rtol=1e-9, n_native=40,
-                 native_call=None, compare_native=None, setup_interp=None, spec_overrides=None, select=None):
+                 native_call=None, compare_native=None, setup_interp=None, spec_overrides=None, select=None, rng_inputs=(), clauses=()):
         self.ck = ck
         self.qn = qualname
         self.sc = scenario
@@ -285,11 +318,14 @@ class FunctionCheck:
         self.hyps = None
         self.select = select or (lambda r: r)
         self.check_self_frame = True
+        self.rng_inputs = list(rng_inputs)
+        self.clauses = list(clauses)
 
     # -- native side -----------------------------------------------------------------
     def run_native(self, v):
         fn, args, kwargs = self.sc.build(v)
-        return self.select(fn(*args, **kwargs))
+        with patched_rng([v[n] for n in self.rng_inputs]):
+            return self.select(fn(*args, **kwargs))
 
     def run_spec_native(self, v):
         return self.spec(v)
@@ -320,7 +356,17 @@ class FunctionCheck:
         return None
 
     def valid_native(self, rng, n, model=None):
-        v = self.sc.native_vals(rng, n, model)
+        """native inputs satisfying the precondition (rejection sampling; a planted model that
+        violates the precondition natively is returned as is and flagged)"""
+        v = None
+        for _ in range(300):
+            v = self.sc.native_vals(rng, n, model)
+            try:
+                if np.all(self.sc.pre_ok_native(v)):
+                    return v
+            except Exception:
+                return v
+        v["__pre_violated__"] = True
         return v
 
     def replay(self, model):
@@ -340,17 +386,16 @@ class FunctionCheck:
         return {"violated": False, "evaluations": n or self.n_native}
 
     # -- symbolic side -----------------------------------------------------------------
-    def explore(self):
+    def explore_code(self):
         it = make_interp(self.overrides)
         if self.setup_interp:
             self.setup_interp(it)
         self.interp = it
-        holder = {}
 
         def mk():
             v = self.sc.symbolic_vals()
-            holder["v"] = v
             it.base_facts = self.sc.pre_hyps(v)
+            it.rng_feed = [v[n] for n in self.rng_inputs]
             fn, args, kwargs = self.sc.build(v)
             for i, a in enumerate(args):
                 if isinstance(a, A) and a.origin is None:
@@ -371,6 +416,11 @@ class FunctionCheck:
             if p.kind == "return":
                 p.result = self.select(p.result)
         self.ck.add_functions(it)
+        self.hyps = self.sc.pre_hyps(self.sc.symbolic_vals())
+        return self
+
+    def explore(self):
+        self.explore_code()
         it2 = make_interp(self.spec_overrides)
         if self.setup_interp:
             self.setup_interp(it2)
@@ -381,7 +431,77 @@ class FunctionCheck:
             return self.spec, [v], {}
 
         self.spec_paths = it2.explore(mk2)
-        self.hyps = self.sc.pre_hyps(self.sc.symbolic_vals())
+        return self
+
+    def any_search(self):
+        """bounded fallback when there is no executable spec: run every clause natively"""
+        if self.spec is not None:
+            return self.search()
+        for name, fn in self.clauses:
+            out = self.clause_search(name, fn)
+            if out.get("violated"):
+                return out
+        return {"violated": False}
+
+    def frame_obligations(self, cp, tag):
+        ck, qn = self.ck, self.qn
+        written, selfw = [], []
+        for kind, obj, detail, where in cp.effects:
+            if isinstance(obj, A) and obj.origin is not None and kind in ("store", "inplace"):
+                (selfw if obj.origin.startswith("self.") else written).append("%s %s at %s" % (obj.origin, detail, where))
+        ck.direct("%s/assigns.params%s" % (qn, tag), not written, "frame", "effect-log(symbolic execution)",
+                  note="; ".join(written) or "no input array written on this path",
+                  clause="the function does not modify the arrays it is given",
+                  replay_out=self.frame_replay() if written else None)
+        if self.check_self_frame:
+            ck.direct("%s/assigns.self%s" % (qn, tag), not selfw, "frame", "effect-log(symbolic execution)",
+                      note="; ".join(selfw) or "no array held by the object is updated in place on this path",
+                      clause="the call leaves the arrays held by the object unchanged (a repeated call sees the same state)",
+                      replay_out=self.frame_replay(True) if selfw else None)
+
+    def shape_obligations(self, cp, tag):
+        ck, qn = self.ck, self.qn
+        for sh in cp.shape_failures:
+            r = sh["result"]
+            o = ck.ob("%s/call.broadcast%s" % (qn, tag), "pre")
+            o.clause = "operands of %s at %s have equal domains" % (sh["what"], sh["where"])
+            o.backend, o.secs, o.note = r.backend, r.secs, r.note
+            if r.status == "refuted":
+                o.witness = r.model
+                ck._refuted(o, self.replay if self.spec is not None else None, self.any_search, True)
+            else:
+                ck._undecided(o, self.any_search)
+
+    def exec_obligations(self, allowed_raises=()):
+        """for checks without an executable spec: every path must be inside the subset, must
+        not raise (other than allowed), must respect the frame"""
+        ck, qn = self.ck, self.qn
+        ck.cover("%s/pre" % qn, self.hyps)
+        for ci, cp in enumerate(self.code_paths):
+            tag = "" if len(self.code_paths) == 1 else "[path%d]" % ci
+            if cp.kind == "unsupported":
+                o = ck.ob("%s/exec%s" % (qn, tag), "exec")
+                o.note = "unsupported construct: %s (at %s)" % (cp.exc, cp.where)
+                ck._undecided(o, self.any_search)
+                continue
+            self.shape_obligations(cp, tag)
+            self.frame_obligations(cp, tag)
+            if cp.kind == "raise" and type(cp.exc).__name__ not in allowed_raises:
+                o = ck.ob("%s/post.exit%s" % (qn, tag), "post")
+                o.clause = "the call returns normally on every input satisfying the precondition (found: raises %s: %s)" % (type(cp.exc).__name__, cp.exc)
+                o.backend = "path-enumeration+z3"
+                o.witness = sat_model(self.hyps + cp.pc + cp.facts)
+
+                def rp(model):
+                    rng = np.random.default_rng(self.ck.seed)
+                    v = self.valid_native(rng, 3, model)
+                    try:
+                        self.run_native(v)
+                    except Exception as ex:
+                        return {"violated": True, "input": jsonable_vals(v), "observed": "raised %r" % ex, "function": self.qn}
+                    return {"violated": False, "input": jsonable_vals(v)}
+
+                ck._refuted(o, rp, self.any_search, True)
         return self
 
     def obligations(self):
@@ -398,30 +518,8 @@ class FunctionCheck:
                 o.note = "unsupported construct: %s (at %s)" % (cp.exc, cp.where)
                 ck._undecided(o, self.search)
                 continue
-            for sh in cp.shape_failures:
-                r = sh["result"]
-                o = ck.ob("%s/call.broadcast%s" % (qn, tag), "pre")
-                o.clause = "operands of %s at %s have equal domains" % (sh["what"], sh["where"])
-                o.backend, o.secs, o.note = r.backend, r.secs, r.note
-                if r.status == "refuted":
-                    o.witness = r.model
-                    ck._refuted(o, self.replay, self.search, True)
-                else:
-                    ck._undecided(o, self.search)
-            # frame: no input array is written, no array held by the object is updated in place
-            written, selfw = [], []
-            for kind, obj, detail, where in cp.effects:
-                if isinstance(obj, A) and obj.origin is not None and kind in ("store", "inplace"):
-                    (selfw if obj.origin.startswith("self.") else written).append("%s %s at %s" % (obj.origin, detail, where))
-            ck.direct("%s/assigns.params%s" % (qn, tag), not written, "frame", "effect-log(symbolic execution)",
-                      note="; ".join(written) or "no input array written on this path",
-                      clause="the function does not modify the arrays it is given",
-                      replay_out=self.frame_replay() if written else None)
-            if self.check_self_frame:
-                ck.direct("%s/assigns.self%s" % (qn, tag), not selfw, "frame", "effect-log(symbolic execution)",
-                          note="; ".join(selfw) or "no array held by the object is updated in place on this path",
-                          clause="the call leaves the arrays held by the object unchanged (a repeated call sees the same state)",
-                          replay_out=self.frame_replay(True) if selfw else None)
+            self.shape_obligations(cp, tag)
+            self.frame_obligations(cp, tag)
             for si, sp_ in enumerate(self.spec_paths):
                 hy = self.hyps + cp.pc + cp.facts + sp_.pc + sp_.facts
                 if len(self.code_paths) * len(self.spec_paths) > 1:
@@ -466,6 +564,102 @@ class FunctionCheck:
             ck.vacuity["failed"].append("%s: no feasible (code, spec) path pair" % qn)
         return self
 
+    def clause_obligations(self):
+        """relational postconditions: clause(v, result) must hold on every returning path"""
+        ck, qn = self.ck, self.qn
+        boxes = self.sc.boxes()
+        for ci, cp in enumerate(self.code_paths):
+            if cp.kind != "return":
+                continue
+            tag = "" if len(self.code_paths) == 1 else "[path%d]" % ci
+            for name, fn in self.clauses:
+                it = make_interp(self.overrides)
+                res = cp.result
+
+                def mk():
+                    v = self.sc.symbolic_vals()
+                    it.base_facts = self.sc.pre_hyps(v) + cp.pc + cp.facts
+                    return fn, [v, res], {}
+
+                ps = it.explore(mk)
+                for pi, p in enumerate(ps):
+                    if p.kind != "return":
+                        raise RuntimeError("clause %s did not evaluate: %s %s" % (name, p.kind, p.exc))
+                    g = p.result
+                    hy = self.hyps + cp.pc + cp.facts + p.pc
+                    if isinstance(g, A) and g.dom is not sp.true:
+                        hy = hy + [g.dom]
+                    goal = sym.boo(term(g))
+                    ck.prove("%s/%s%s%s" % (qn, name, tag, "" if len(ps) == 1 else "[c%d]" % pi), hy, goal, boxes=boxes,
+                             replay=lambda m, name=name, fn=fn: self.clause_replay(m, name, fn), search=lambda name=name, fn=fn: self.clause_search(name, fn),
+                             clause=(fn.__doc__ or name).strip().split("\n")[0])
+        return self
+
+    def definedness_obligations(self, what_filter=None):
+        """every numpy operation executed on a returning path is applied inside its domain
+        (no division by zero, log of a non-positive number, sqrt/arccos out of range) and no
+        python-level exception condition is reachable, for the events that are kept."""
+        ck, qn = self.ck, self.qn
+        boxes = self.sc.boxes()
+
+        def finite_replay(model):
+            rng = np.random.default_rng(self.ck.seed)
+            v = self.valid_native(rng, 3, model)
+            try:
+                with np.errstate(all="ignore"):
+                    out = flat(self.run_native({k: (x.copy() if isinstance(x, np.ndarray) else x) for k, x in v.items()}))
+            except Exception as ex:
+                return {"violated": True, "input": jsonable_vals(v), "observed": "raised %r" % ex, "function": self.qn}
+            bad = [n for n, o in zip(self.outputs, out) if not isinstance(o, (str, type(None))) and not np.all(np.isfinite(np.asarray(o, dtype=float)))]
+            return {"violated": bool(bad), "input": jsonable_vals(v), "observed": {"non-finite outputs": bad, "outputs": jsonable_vals(dict(zip(self.outputs, out)))}, "function": self.qn}
+
+        for ci, cp in enumerate(self.code_paths):
+            if cp.kind == "unsupported":
+                continue
+            tag = "" if len(self.code_paths) == 1 else "[path%d]" % ci
+            cnt = {}
+            for cond, what, dom, where, pc in cp.defined:
+                if what_filter and not what_filter(what, where):
+                    continue
+                cnt[what] = cnt.get(what, 0) + 1
+                hy = self.hyps + pc + cp.facts + ([dom] if dom is not sp.true else [])
+                ck.prove("%s/defined.%s#%d%s" % (qn, what.strip("<>"), cnt[what], tag), hy, cond, kind="defined", boxes=boxes, replay=finite_replay,
+                         clause="%s at %s is applied inside its domain: %s" % (what, where, str(cond)[:120]))
+            for cond, exc, what, where, pc in cp.may_raise:
+                cnt[exc] = cnt.get(exc, 0) + 1
+                hy = self.hyps + pc + cp.facts
+                ck.prove("%s/noraise.%s#%d%s" % (qn, exc, cnt[exc], tag), hy, sp.Not(cond), kind="defined", boxes=boxes, replay=finite_replay,
+                         clause="%s (%s at %s) cannot occur" % (exc, what, where))
+        return self
+
+    def clause_native(self, v, fn):
+        vv = {k: (x.copy() if isinstance(x, np.ndarray) else x) for k, x in v.items()}
+        with np.errstate(all="ignore"):
+            out = self.run_native(vv)
+            ok = fn(v, out)
+        return bool(np.all(ok)), out
+
+    def clause_replay(self, model, name, fn):
+        rng = np.random.default_rng(self.ck.seed)
+        v = self.valid_native(rng, 3, model)
+        try:
+            ok, out = self.clause_native(v, fn)
+        except Exception as ex:
+            return {"violated": True, "input": jsonable_vals(v), "observed": "raised %r" % ex, "function": self.qn, "clause": name}
+        return {"violated": not ok, "input": jsonable_vals(v), "observed": jsonable_vals({"result": out}), "function": self.qn, "clause": name}
+
+    def clause_search(self, name, fn, n=None):
+        rng = np.random.default_rng(self.ck.seed + 3)
+        for it in range(n or self.n_native):
+            v = self.valid_native(rng, 1 + it % 7)
+            try:
+                ok, out = self.clause_native(v, fn)
+            except Exception as ex:
+                return {"violated": True, "input": jsonable_vals(v), "observed": "raised %r" % ex, "function": self.qn, "clause": name}
+            if not ok:
+                return {"violated": True, "input": jsonable_vals(v), "observed": jsonable_vals({"result": out}), "function": self.qn, "clause": name}
+        return {"violated": False, "evaluations": n or self.n_native}
+
     def frame_replay(self, self_state=False):
         rng = np.random.default_rng(self.ck.seed)
         v = self.valid_native(rng, 4)
@@ -479,7 +673,7 @@ class FunctionCheck:
                     named += [("self.%s" % k, a) for k, a in vars(so).items()]
         before = {k: x.copy() for k, x in named if isinstance(x, np.ndarray)}
         try:
-            with np.errstate(all="ignore"):
+            with np.errstate(all="ignore"), patched_rng([v[n] for n in self.rng_inputs]):
                 fn(*args, **kwargs)
         except Exception as ex:
             return {"violated": None, "note": "native run raised %r" % ex}
